@@ -87,7 +87,7 @@ class Response(object):
             calls the str function on each item.
         :param max_age: the maximum cache age in seconds
         """
-        if etag_data:
+        if etag_data and not all(x is None for x in etag_data):
             hash_src = ''.join((str(x) for x in etag_data)).encode('ascii')
             self.etag = hashlib.new('md5', hash_src, usedforsecurity=False).hexdigest()
 
